@@ -42,7 +42,10 @@ multisec_regex = re.compile(
     (
         # What comes between sections ('through', 'and', etc.). Captures named
         # groups 'through' and 'and' for those words or equivalent symbols.
-        ({intervener_regex.pattern})+   # IMPORTANT: Allow more than one intervener
+        # A colon ends the section reference (see the 'colon' group at the
+        # end), so it is not an intervener here: 'Sec 14: 40 acres' is one
+        # section followed by its description, not sections 14 and 40.
+        ((?!\s*:){intervener_regex.pattern})+   # IMPORTANT: Allow more than one intervener
                                         # to keep matching multisec to the right!
 
         \s*
